@@ -51,6 +51,8 @@ assert not st, '/repo dirty'
 results = {}
 rc, out = sh('git -C /repo apply %s' % patch)
 assert rc == 0, out
+# evidence/ describes the unchanged tree: keep the files of the checks run against the change out of it
+saved = {c: open('/verif/evidence/%s.json' % c).read() for c in checks if os.path.exists('/verif/evidence/%s.json' % c)}
 try:
     for cid in checks:
         t0 = time.time()
@@ -60,6 +62,8 @@ try:
         print(cid, 'exit', rc, lines[:3])
 finally:
     sh('git -C /repo checkout -- .')
+    for c, txt in saved.items():
+        open('/verif/evidence/%s.json' % c, 'w').write(txt)
 meta['checks'] = results
 meta['detected_by'] = [c for c, r in results.items() if r['exit'] == 1]
 meta['ran'] = ['scratch worktree: demo on clean code (exit %s), git apply, demo on the change (exit %s), full test suite (%s)' % (
